@@ -73,6 +73,10 @@ fn behaviour(s: &mut Sess) -> Result<Vec<String>, Crash> {
     Ok(log)
 }
 
+pub fn check_store(c: &StoreCase, rec: &mut CaseRec) -> Verdict {
+    check(c, rec)
+}
+
 fn check(c: &StoreCase, rec: &mut CaseRec) -> Verdict {
     let mut a = Sess::new();
     a.randomize(c.seed);
@@ -297,7 +301,7 @@ pub fn property() -> Property {
         id: "C14",
         rule: "Stored programs built from: every ordered pair (thorough: triple) of token-class representatives typed with and without a separating blank (exhaustive); numerals in many spellings (leading dot, leading/trailing zeros, up to 400 digits, tiny fractions, spaced digits) in 10 contexts incl. directly after an identifier; DATA statements with quoted / bare / numeric / empty / quote-containing / inf-nan-exponent items, odd spacing and trailing statements; REM tails and strings with arbitrary Unicode; random atom lines; structured programs from the grammar rendered with random spacing/case; the repo's two sample programs. Oracle: LIST of the original == LIST after typing that listing into a fresh interpreter (every listed line must be accepted), then RUN of both (same seed, reply 1 to INPUTs, 3000-turn budget) gives identical output records and outcome, and RESTORE + repeated READ into a string variable yields the identical DATA item sequence. Non-trivial: the listing differs from the typed text and contains DATA, a decimal point or >= 3 tokens; distinct by listing.",
         assumptions: vec!["behaviour under RUN is compared up to a 3000-turn budget"],
-        fuzz: None,
+        fuzz: Some(FuzzSpec { target: "c14_roundtrip", runs: 300_000, max_len: 512, verdict: crate::fuzz::c14_verdict }),
         families,
         prelude: None,
         epilogue: None,
